@@ -29,7 +29,8 @@ flock 9
 # cargo's freshness cache would skip the wrapper: drop the members' fingerprints
 for prof in debug release; do
   if [ -d "$TARGET/$prof/.fingerprint" ]; then
-    rm -rf "$TARGET/$prof/.fingerprint"/ec-core-* "$TARGET/$prof/.fingerprint"/ec-linear-* "$TARGET/$prof/.fingerprint"/push-[0-9a-f]* "$TARGET/$prof/.fingerprint"/ec_core-* "$TARGET/$prof/.fingerprint"/ec_linear-* 2>/dev/null || true
+    rm -rf "$TARGET/$prof/.fingerprint"/ec-core-* "$TARGET/$prof/.fingerprint"/ec-linear-* "$TARGET/$prof/.fingerprint"/push-[0-9a-f]* "$TARGET/$prof/.fingerprint"/ec_core-* "$TARGET/$prof/.fingerprint"/ec_linear-* \
+           "$TARGET/$prof/.fingerprint"/ec_macros-* "$TARGET/$prof/.fingerprint"/push_macros-* "$TARGET/$prof/.fingerprint"/ec-macros-* "$TARGET/$prof/.fingerprint"/push-macros-* 2>/dev/null || true
   fi
 done
 SYSROOT="$(rustc +nightly --print sysroot)"
